@@ -303,7 +303,11 @@ def rule_copy(c, prog):
             child_lids = set(pat_lids(fl[0]))
             for n in core.walk(fl[2]):
                 if n.get("k") == "MethodCall" and n["m"] == "push_back" and is_ctx_queue(n["recv"]) and pair_ok(n["args"][0], child_lids):
-                    ok = True
+                    # every child is enqueued: the push is not under a condition inside the loop
+                    cond = any(y.get("k") in ("If", "Match") and y.get("src") not in ("ForLoopDesugar", "TryDesugar") and any(z is n for z in core.walk(y)) for y in core.walk(fl[2]))
+                    skips = any(y.get("k") in ("Continue", "Break", "Ret") for y in core.walk(fl[2], into_closures=False))
+                    if not cond and not skips:
+                        ok = True
     for n in calls:
         if n.get("k") == "MethodCall" and n["m"] == "extend" and is_ctx_queue(n["recv"]) and n["args"]:
             chain, base = _chain(n["args"][0])
